@@ -24,6 +24,7 @@ import (
 	"mime"
 	"os"
 	"path/filepath"
+	"reflect"
 	"sort"
 	"strings"
 	"testing/iotest"
@@ -250,16 +251,9 @@ type mockRepo struct {
 }
 
 func (r *mockRepo) Resolve(ctx context.Context, reference string) (ocispec.Descriptor, error) {
-	// a fresh annotation map per call, as a registry client would return
-	d := r.desc
-	if d.Annotations != nil {
-		m := make(map[string]string, len(d.Annotations))
-		for k, v := range d.Annotations {
-			m[k] = v
-		}
-		d.Annotations = m
-	}
-	return d, nil
+	// the repository hands out ITS descriptor (annotation map, url slice and data shared with the
+	// caller's object): the harness snapshots it before the call and compares afterwards
+	return r.desc, nil
 }
 
 func (r *mockRepo) ListSignatures(ctx context.Context, desc ocispec.Descriptor, fn func([]ocispec.Descriptor) error) error {
@@ -332,6 +326,8 @@ type c07Case struct {
 	VMeta   map[string]string `json:"verify_user_metadata,omitempty"`
 	// one signer INSTANCE is shared by the cases of a history group, in generation order
 	Group string `json:"history_group,omitempty"`
+	// the history passes the SAME map objects (user metadata, plugin config, on both sides) at every step
+	SharedMaps bool `json:"history_shares_map_objects,omitempty"`
 	// other signatures the repository lists with the genuine one at verification
 	// (other-desc: trusted signer, other artifact and metadata values; untrusted: same artifact, untrusted signer)
 	Decoys   []string `json:"decoy_signatures,omitempty"`
@@ -553,6 +549,41 @@ type signerBoth interface {
 type groupState struct {
 	sg   signerBoth
 	plug *scriptPlugin
+	// histories with shared maps: the SAME map objects are passed at every step
+	shared                    bool
+	meta, vmeta, pcfg, vpcfg map[string]string
+}
+
+func cpMap(m map[string]string) map[string]string {
+	if m == nil {
+		return nil
+	}
+	o := make(map[string]string, len(m))
+	for k, v := range m {
+		o[k] = v
+	}
+	return o
+}
+
+// frameSnap is a deep snapshot of the caller-owned objects handed to the library by reference.
+type frameSnap map[string]any
+
+func descSnap(d *ocispec.Descriptor) any {
+	if d == nil {
+		return nil
+	}
+	return []any{cpMap(d.Annotations), append([]string(nil), d.URLs...), append([]byte(nil), d.Data...), d.MediaType, d.Digest, d.Size, d.ArtifactType}
+}
+
+func (a frameSnap) diff(b frameSnap) []string {
+	var out []string
+	for k, v := range a {
+		if !reflect.DeepEqual(v, b[k]) {
+			out = append(out, k)
+		}
+	}
+	sort.Strings(out)
+	return out
 }
 
 // makeDecoy produces, with the real signing API, another signature the
@@ -590,6 +621,13 @@ type env struct {
 	bvUntrust notation.BlobVerifier
 	agent0    string
 	untrusted *keyInfo // EC-256 leaf under the root the policies do not trust
+	docs      []any    // the trust policy documents handed to the verifiers
+	docsSnap  string
+}
+
+func (e *env) docsJSON() string {
+	b, _ := json.Marshal(e.docs)
+	return string(b)
 }
 
 func setup() *env {
@@ -605,12 +643,14 @@ func setup() *env {
 	store.Put(truststore.TypeCA, "s", root.C)
 	store.Put(truststore.TypeCA, "o", other.C)
 	mk := func(st string) *verifier.VerifierOptions {
-		return &verifier.VerifierOptions{
+		o := &verifier.VerifierOptions{
 			OCITrustPolicy: OCIPolicy("strict", nil, []string{"ca:" + st}, []string{"*"}, ""),
 			BlobTrustPolicy: &trustpolicy.BlobDocument{Version: "1.0", TrustPolicies: []trustpolicy.BlobTrustPolicy{{
 				Name: "b", SignatureVerification: trustpolicy.SignatureVerification{VerificationLevel: "strict"},
 				TrustStores: []string{"ca:" + st}, TrustedIdentities: []string{"*"}, GlobalPolicy: true}}},
 		}
+		e.docs = append(e.docs, o.OCITrustPolicy, o.BlobTrustPolicy)
+		return o
 	}
 	vt, err := verifier.NewVerifierWithOptions(store, *mk("s"))
 	if err != nil {
@@ -621,6 +661,7 @@ func setup() *env {
 		panic(err)
 	}
 	e.vTrusted, e.vUntrust, e.bvTrusted, e.bvUntrust = vt, vu, vt, vu
+	e.docsSnap = e.docsJSON()
 	// the library's default signing agent: read from a signature made with no agent option
 	k := e.keys["EC-256"]
 	s, err := signer.NewGenericSigner(k.Key, k.Chain)
@@ -651,6 +692,7 @@ func runC07(a *Args) error {
 		"the scripted plugin is faithful: it signs the bytes it is given with the described key and the requested hash / expiry",
 		"trust store content decides trust: the policy names a store holding the root of the signing chain (trusted) or another root (not trusted); revocation passes (no OCSP/CRL pointers)",
 		"signatures that the repository lists besides the genuine one (made for another artifact or by an untrusted signer) do not change the observation: the model is evaluated on the genuine one alone",
+		"frame check on every case: user-metadata and plugin-config maps of the sign and verify options, the descriptors the repositories resolve to (annotation map, urls, data), the signature bytes, the signer's certificate slice and the trust policy documents are snapshotted before each library call and must be unchanged after it",
 		"sign error classes are recognised from the (stable) error texts of notation.go; verification error classes from error types and texts",
 	}
 	e := setup()
@@ -695,22 +737,49 @@ func runC07(a *Args) error {
 			}
 			sg = s
 		}
-		if c.Group != "" {
-			groups[c.Group] = &groupState{sg, plug}
-		}
-		sopts := notation.SignerSignOptions{SignatureMediaType: c.Format, ExpiryDuration: time.Duration(c.DurNs), SigningAgent: c.Agent}
 		cpMeta := func(m map[string]string, empty bool) map[string]string {
 			if m == nil && empty {
 				return map[string]string{}
 			}
-			if m == nil {
-				return nil
+			return cpMap(m)
+		}
+		meta, vmeta := cpMeta(c.Meta, c.MetaEmpty), cpMeta(c.VMeta, c.VMetaEmpty)
+		pcfg, vpcfg := map[string]string{"vh.config": "sign"}, map[string]string{"vh.config": "verify"}
+		if c.Group != "" {
+			gs, ok := groups[c.Group]
+			if !ok {
+				gs = &groupState{sg: sg, plug: plug, shared: c.SharedMaps, meta: meta, vmeta: vmeta, pcfg: pcfg, vpcfg: vpcfg}
+				groups[c.Group] = gs
+			} else if gs.shared {
+				meta, vmeta, pcfg, vpcfg = gs.meta, gs.vmeta, gs.pcfg, gs.vpcfg
 			}
-			o := map[string]string{}
-			for k, v := range m {
-				o[k] = v
+		}
+		// what the library is really given (a shared map may have been changed by an earlier step)
+		metaIn, vmetaIn := cpMap(meta), cpMap(vmeta)
+		sopts := notation.SignerSignOptions{SignatureMediaType: c.Format, ExpiryDuration: time.Duration(c.DurNs), SigningAgent: c.Agent, PluginConfig: pcfg}
+		var signDesc, verifyDesc *ocispec.Descriptor
+		var sigSnap []byte
+		snapshot := func() frameSnap {
+			chain := make([]string, len(k.Chain))
+			for i, cert := range k.Chain {
+				chain[i] = fmt.Sprintf("%p/%x", cert, cert.Raw[:16])
 			}
-			return o
+			return frameSnap{
+				"SignOptions.UserMetadata":                      cpMap(meta),
+				"SignerSignOptions.PluginConfig":                cpMap(pcfg),
+				"VerifyOptions.UserMetadata":                    cpMap(vmeta),
+				"VerifyOptions.PluginConfig":                    cpMap(vpcfg),
+				"descriptor resolved at signing (annotations, urls, data)":      descSnap(signDesc),
+				"descriptor resolved at verification (annotations, urls, data)": descSnap(verifyDesc),
+				"signature envelope bytes":                      append([]byte(nil), sigSnap...),
+				"certificate chain slice of the signer":         chain,
+				"trust policy documents":                        e.docsJSON(),
+			}
+		}
+		frameCheck := func(stage string, before frameSnap) {
+			if ch := before.diff(snapshot()); len(ch) > 0 && record {
+				w.ImplViolation(my, "library mutated caller-owned "+strings.Join(ch, "; ")+" (during "+stage+")", c, "frame")
+			}
 		}
 		// ----- sign
 		var sig []byte
@@ -723,8 +792,11 @@ func runC07(a *Args) error {
 		if c.Kind == "oci" {
 			d := c.OCI.toOCI()
 			repo = &mockRepo{desc: d}
+			signDesc = &repo.desc
 			targetTerm = CApp("TOCI", descTerm(d))
-			_, _, serr = notation.SignOCI(ctx, sg, repo, notation.SignOptions{SignerSignOptions: sopts, ArtifactReference: c.OCI.Digest, UserMetadata: cpMeta(c.Meta, c.MetaEmpty)})
+			fs := snapshot()
+			_, _, serr = notation.SignOCI(ctx, sg, repo, notation.SignOptions{SignerSignOptions: sopts, ArtifactReference: c.OCI.Digest, UserMetadata: meta})
+			frameCheck("SignOCI", fs)
 			if serr == nil && len(repo.sigs) == 1 {
 				sig = repo.sigs[0].blob
 			}
@@ -741,8 +813,10 @@ func runC07(a *Args) error {
 			} else {
 				vtargetTerm = CApp("TBlob", blobTerm(vcontent, readErr(c.VBlob)), CStr(c.VBlob.MT), CBool(mtOK(c.VBlob.MT)))
 			}
+			fs := snapshot()
 			sig, _, serr = notation.SignBlob(ctx, blobSignerShim{sg, &shash}, mkReader(c.Blob, content),
-				notation.SignBlobOptions{SignerSignOptions: sopts, ContentMediaType: c.Blob.MT, UserMetadata: cpMeta(c.Meta, c.MetaEmpty)})
+				notation.SignBlobOptions{SignerSignOptions: sopts, ContentMediaType: c.Blob.MT, UserMetadata: meta})
+			frameCheck("SignBlob", fs)
 			if serr != nil {
 				sig = nil
 			}
@@ -828,7 +902,10 @@ func runC07(a *Args) error {
 				if !c.Trusted {
 					v = e.vUntrust
 				}
-				ret, outs, err := notation.Verify(ctx, v, vrepo, notation.VerifyOptions{ArtifactReference: scopedRepo + "@" + c.VOCI.Digest, MaxSignatureAttempts: 10, UserMetadata: cpMeta(c.VMeta, c.VMetaEmpty)})
+				verifyDesc, sigSnap = &vrepo.desc, sig
+				fs := snapshot()
+				ret, outs, err := notation.Verify(ctx, v, vrepo, notation.VerifyOptions{ArtifactReference: scopedRepo + "@" + c.VOCI.Digest, MaxSignatureAttempts: 10, UserMetadata: vmeta, PluginConfig: vpcfg})
+				frameCheck("Verify", fs)
 				vcode = verifyClass(err)
 				if err != nil {
 					obs["verify_error"] = Short(err.Error(), 300)
@@ -847,9 +924,12 @@ func runC07(a *Args) error {
 				if !c.Trusted {
 					bv = e.bvUntrust
 				}
+				sigSnap = sig
+				fs := snapshot()
 				ret, out, err := notation.VerifyBlob(ctx, blobVerifierShim{bv, &vhash}, mkReader(c.VBlob, vcontent), sig, notation.VerifyBlobOptions{
-					BlobVerifierVerifyOptions: notation.BlobVerifierVerifyOptions{SignatureMediaType: c.Format, UserMetadata: cpMeta(c.VMeta, c.VMetaEmpty)},
+					BlobVerifierVerifyOptions: notation.BlobVerifierVerifyOptions{SignatureMediaType: c.Format, UserMetadata: vmeta, PluginConfig: vpcfg},
 					ContentMediaType:          c.VBlob.MT})
+				frameCheck("VerifyBlob", fs)
 				vcode = verifyClass(err)
 				if err != nil {
 					obs["verify_error"] = Short(err.Error(), 300)
@@ -882,9 +962,9 @@ func runC07(a *Args) error {
 		if plug != nil && plug.envReq != nil {
 			plugenv = CSome(CZ(int64(plug.envReq.ExpiryDurationInSeconds)))
 		}
-		in := CApp("mk_input", targetTerm, signerTerm, CApp("mk_ks", k.Type, CN(int64(k.Size))), CStr(c.Format), CMap(c.Meta), CZ(c.DurNs),
+		in := CApp("mk_input", targetTerm, signerTerm, CApp("mk_ks", k.Type, CN(int64(k.Size))), CStr(c.Format), CMap(metaIn), CZ(c.DurNs),
 			CStr(c.Agent), CZ(now.UnixNano()), CApp("mk_consts", CStr(e.agent0), CStr(plugName), CStr(plugVer), CStr(penvAgent)),
-			CBool(c.Trusted), vtargetTerm, CMap(c.VMeta))
+			CBool(c.Trusted), vtargetTerm, CMap(vmetaIn))
 		ob := CApp("mk_obs", CN(sc), optStr(shash, shash != ""), plugsig, plugenv, envTerm, CN(vcode), optStr(vhash, vhash != ""), retTerm, metaTerm)
 		term := CApp("mk_case", CN(my), in, ob)
 		if letBlob != "" {
